@@ -88,6 +88,8 @@ THEOREMS = [
     ("DastardV.Lemmas.ComposeFile", "DastardV.Compose.pipeline_to_ljh22_file_weave"),
     ("DastardV.Lemmas.ComposeFile", "DastardV.Compose.records_to_off_file"),
     ("DastardV.Lemmas.ComposeFile", "DastardV.Compose.records_to_ljh3_file"),
+    ("DastardV.Lemmas.ComposeFile", "DastardV.Compose.accepted_eq_published"),
+    ("DastardV.Lemmas.ComposeFile", "DastardV.Compose.pipeline_to_ljh22_file_any_history"),
     ("DastardV.Lemmas.ComposeEndToEnd", "DastardV.Compose.abaco_to_ljh22_file"),
     ("DastardV.Lemmas.ComposeEndToEnd", "DastardV.Compose.lancero_to_ljh22_file"),
 ]
